@@ -36,6 +36,7 @@ func runC04Float(c FloatMapCase, o *vk.Obs) string {
 	}
 	sawNaN := false
 	for i, op := range c.Ops {
+		o.Step() // interleaved execution (vk.Interleave) switches to the other case here
 		k := floatKeys[op.A%len(floatKeys)]
 		errf := func(format string, args ...any) string {
 			return fmt.Sprintf("op#%d %s(%v) on omap.New[float64,int]: %s", i, op.Kind, k, fmt.Sprintf(format, args...))
